@@ -604,6 +604,11 @@ impl<'a, 'b> Gen<'a, 'b> {
         match self.t.below(8) {
             0 | 1 | 2 => self.atom(&ty),
             3 => {
+                if self.t.maybe(90) {
+                    // string(text) hands back the very same object, whether the text is a literal, a variable or a call
+                    let s = self.expr(&Ty::Str, d - 1);
+                    return calln("string", vec![s]);
+                }
                 let i = self.expr(&Ty::Int, d - 1);
                 calln("string", vec![i])
             }
@@ -899,7 +904,13 @@ impl<'a, 'b> Gen<'a, 'b> {
                     mut_str = true;
                     let u = self.fresh("uniek");
                     let extra = self.str_lit();
-                    string(&format!("{u}_{extra}"))
+                    let lit = string(&format!("{u}_{extra}"));
+                    if self.t.maybe(70) {
+                        // the literal goes through a builtin that returns its argument
+                        calln("string", vec![lit])
+                    } else {
+                        lit
+                    }
                 } else {
                     e
                 };
